@@ -64,3 +64,11 @@ pub fn factor_transpose_d<T: Copy, const D: usize>(
 pub fn scalar_recipe_len_and_shape(len: usize) -> (usize, String) {
     crate::plan::verif_scalar_recipe(len)
 }
+
+/// SSE kernels (module `sse` is crate-private; the types themselves are public within it).
+#[cfg(all(target_arch = "x86_64", feature = "sse"))]
+pub mod sse {
+    pub use crate::sse::sse_butterflies::*;
+    pub use crate::sse::sse_prime_butterflies::*;
+    pub use crate::sse::sse_radix4::*;
+}
